@@ -84,7 +84,7 @@ func sortedKeys(m map[string]model.Cons) []string {
 
 var stringPaths = map[string]bool{"S": true, "Up": true, "Lo": true, "In.S": true, "P.S": true, "Emb.ES": true, "Raw": true, "Der": true}
 
-var exts = []string{".json", ".json", ".obj", ".x.y", ".json.gz", ""}
+var exts = []string{".json", ".json", ".obj", ".x.y", ".json.gz", "", "dat"}
 
 // Profile tunes generation for the property being checked.
 type Profile struct {
